@@ -151,3 +151,85 @@ def run_plan_totals(shape, model):
     if fp.num_primitive_ops != len(ops):
         return True, f"num_primitive_ops {fp.num_primitive_ops} != {len(ops)}"
     return False, f"num_tasks {fp.num_tasks} == sum over {len(ops)} operations"
+
+
+def _mk_full_op(model, label, n_inputs=1):
+    """a real PrimitiveOperation with a real BlockwiseSpec and apply_blockwise pipeline (a fuse candidate), built from
+    the model's values for the symbols the contracts name <label>_*"""
+    import numpy as np
+
+    from cubed.primitive.blockwise import BlockwiseSpec, apply_blockwise
+    from cubed.primitive.types import PrimitiveOperation
+    from cubed.runtime.types import CubedPipeline
+
+    g = lambda k, d: int(model.get(f"{label}_{k}", d))  # noqa: E731
+
+    class _T:
+        pass
+
+    t = _T()
+    t.shape, t.chunks, t.dtype = (max(1, g("n", 1)),), (max(1, g("chunk", 1)),), np.dtype(f"V{max(1, g('itemsize', 1))}")
+    nib = tuple(max(1, g(f"nib{i}", 1)) for i in range(n_inputs))
+    spec = BlockwiseSpec(lambda k: None, lambda *a: None, nib, (1,), {}, {label: object()})
+    pipe = CubedPipeline(apply_blockwise, f"{label}-pipeline", [], spec)
+    return PrimitiveOperation(pipeline=pipe, source_array_names=[f"{label}_in{i}" for i in range(n_inputs)], target_array=t,
+                              # the invariant general_blockwise establishes (and the contracts assume):
+                              # projected_mem >= reserved_mem + chunk memory of the target
+                              projected_mem=max(g("projected_mem", 0), g("reserved_mem", 0) + t.dtype.itemsize * t.chunks[0]),
+                              allowed_mem=g("allowed_mem", 0), reserved_mem=g("reserved_mem", 0),
+                              num_tasks=max(1, g("num_tasks", 1)), fusable_with_predecessors=True, fusable_with_successors=True)
+
+
+def _peak(ops):
+    """closed form of the modelled peak: max_i (sum_{j<i} chunkmem_j + projected_i)"""
+    kept, best = 0, 0
+    for o in ops:
+        if o is None:
+            continue
+        best = max(best, kept + o.projected_mem)
+        kept += o.target_array.dtype.itemsize * o.target_array.chunks[0]
+    return best
+
+
+def run_peak(model, k, none_at):
+    from cubed.primitive.blockwise import peak_projected_mem
+
+    ops = [None if none_at == i else _mk_full_op(model, f"p{i}") for i in range(k)]
+    got, want = peak_projected_mem(ops), _peak(ops)
+    desc = [(o.projected_mem, o.target_array.dtype.itemsize * o.target_array.chunks[0]) if o else None for o in ops]
+    if got != want:
+        return True, f"(projected, chunk memory) per op {desc}: peak_projected_mem = {got}, the modelled peak is {want}"
+    return False, f"(projected, chunk memory) per op {desc}: peak {got}"
+
+
+def run_fuse_multiple(model, k, none_at):
+    from cubed.primitive.blockwise import fuse_multiple
+
+    op = _mk_full_op(model, "op", n_inputs=k)
+    preds = [None if none_at == i else _mk_full_op(model, f"p{i}") for i in range(k)]
+    try:
+        fused = fuse_multiple(op, *preds)
+    except Exception as e:  # noqa: BLE001
+        return True, f"fuse_multiple raised {type(e).__name__}: {e}"
+    want = max(op.projected_mem, _peak(preds))
+    desc = dict(op=op.projected_mem, preds=[(p.projected_mem, p.target_array.dtype.itemsize * p.target_array.chunks[0]) if p else None for p in preds])
+    if fused.projected_mem != want:
+        return True, f"{desc}: fused projected_mem = {fused.projected_mem}, must be max(op, predecessor peak) = {want}"
+    if fused.num_tasks != op.num_tasks or fused.allowed_mem != op.allowed_mem or fused.target_array is not op.target_array:
+        return True, f"{desc}: fused op does not keep op's task count / budget / target"
+    return False, f"{desc}: fused projected_mem {fused.projected_mem}"
+
+
+def run_fuse_pair(model):
+    from cubed.primitive.blockwise import fuse
+
+    a, b = _mk_full_op(model, "a"), _mk_full_op(model, "b")
+    b.num_tasks = a.num_tasks
+    try:
+        fused = fuse(a, b)
+    except Exception as e:  # noqa: BLE001
+        return True, f"fuse raised {type(e).__name__}: {e}"
+    want = max(a.projected_mem, b.projected_mem)
+    if fused.projected_mem != want or fused.num_tasks != b.num_tasks or fused.target_array is not b.target_array:
+        return True, f"fuse(a, b) with projected {a.projected_mem}, {b.projected_mem}: fused projected {fused.projected_mem} (want {want}), tasks {fused.num_tasks}"
+    return False, f"fused projected_mem {fused.projected_mem} == max({a.projected_mem}, {b.projected_mem})"
